@@ -21,6 +21,7 @@ import builtins
 import keyword
 
 from sa import core
+from sa import formula
 from sa import pat
 from sa import rules_qn
 from sa import facts
@@ -289,39 +290,42 @@ def check(model, rep, tier):
             lam_ok = 'ast.Lambda' in src and all(k in src for k in (
                 'posonlyargs', '.args', 'kwonlyargs', 'vararg', 'kwarg')) and \
                 '.arg' in src
-            # every parameter of every nested lambda is collected: the loop over
-            # the five parameter groups is never left early, and a name is added
-            # whenever the slot is not None
+            # every parameter of every nested lambda is collected: some construct
+            # adds <elem>.arg for every element of the five parameter groups that
+            # is not None, and is never left early
             hf = r[1]
-            inner = [f for f in ast.walk(hf.node) if isinstance(f, ast.For) and all(
-                k in core.norm(f.iter) for k in ('posonlyargs', 'kwonlyargs', 'vararg', 'kwarg'))]
-            lam_ok = lam_ok and len(inner) == 1
+            forms = []
+            for f in ast.walk(hf.node):
+              if isinstance(f, ast.For) and isinstance(f.target, ast.Name):
+                adds = [c for c in ast.walk(f) if isinstance(c, ast.Call) and isinstance(
+                    c.func, ast.Attribute) and c.func.attr == 'add' and c.args and
+                        core.norm(c.args[0]) == f.target.id + '.arg']
+                if len(adds) == 1:
+                  fake = ast.FunctionDef(name='_b', args=hf.node.args, body=f.body,
+                                         decorator_list=[], lineno=f.lineno)
+                  jumps = any(isinstance(x, (ast.Break, ast.Return)) for x in ast.walk(f))
+                  forms.append((f.target.id, f.iter, formula.condition_formula(
+                      fake, adds[0], lambda e, t=f.target.id: 'NONE' if core.norm(e) ==
+                      t + ' is None' else None), jumps))
+              if isinstance(f, ast.Call) and isinstance(f.func, ast.Attribute) and \
+                  f.func.attr == 'update' and len(f.args) == 1 and isinstance(
+                      f.args[0], (ast.GeneratorExp, ast.ListComp, ast.SetComp)):
+                cg = f.args[0]
+                if len(cg.generators) == 1 and isinstance(cg.generators[0].target, ast.Name) \
+                    and core.norm(cg.elt) == cg.generators[0].target.id + '.arg':
+                  t = cg.generators[0].target.id
+                  cond = formula.TRUE
+                  for i in cg.generators[0].ifs:
+                    cond = cond & formula.bool_formula(
+                        i, lambda e, t=t: 'NONE' if core.norm(e) == t + ' is None' else None)
+                  forms.append((t, cg.generators[0].iter, cond, False))
+            lam_ok = lam_ok and len(forms) == 1
             if lam_ok:
-              lp = inner[0]
-              tv = core.norm(lp.target)
-              lam_ok = not any(isinstance(x, (ast.Break, ast.Return))
-                               for x in ast.walk(lp))
-              adds = [c for c in ast.walk(lp) if isinstance(c, ast.Call) and isinstance(
-                  c.func, ast.Attribute) and c.func.attr == 'add' and c.args and
-                      core.norm(c.args[0]) == tv + '.arg']
-              lam_ok = lam_ok and len(adds) == 1
-              if lam_ok:
-                par_ = {b: a for a in ast.walk(lp) for b in ast.iter_child_nodes(a)}
-                x = adds[0]
-                while par_.get(x) is not None and par_[x] is not lp:
-                  y = par_[x]
-                  if isinstance(y, ast.If):
-                    inbody = any(x is b or any(x is z for z in ast.walk(b)) for b in y.body)
-                    t = core.norm(y.test)
-                    if not ((inbody and t == '%s is not None' % tv) or
-                            (not inbody and t == '%s is None' % tv)):
-                      lam_ok = False
-                  x = y
-                # a `continue` may only skip the None slots
-                for cnt in [c for c in ast.walk(lp) if isinstance(c, ast.Continue)]:
-                  g = par_.get(cnt)
-                  if not (isinstance(g, ast.If) and core.norm(g.test) == '%s is None' % tv):
-                    lam_ok = False
+              t, src, cond, jumps = forms[0]
+              srct = tpl.xnorm(hf, src, src)
+              lam_ok = not jumps and all(k in srct for k in (
+                  'posonlyargs', '.args', 'kwonlyargs', 'vararg', 'kwarg')) and \
+                  formula.equivalent(cond, ~formula.atom('NONE'))[0]
     rep.check(lam_ok, 'HYG-BIND', '%s:nested-lambda-parameters-reserved' % h.site,
               'lambdas nested in the function get no scope object of their own: '
               'generated calls in their bodies name the enclosing function\'s '
